@@ -291,7 +291,8 @@ func (m *kbMachine) add(pub crypto.PublicKey, priv crypto.PrivateKey, pass strin
 func (m *kbMachine) step() {
 	rt, c := m.rt, m.c
 	m.n++
-	ops := []string{"create", "importRaw", "importArmor", "sign", "update", "exportArmor", "exportObject", "delete", "get", "unsafeDelete"}
+	ops := []string{"create", "importRaw", "importArmor", "importArmor", "sign", "sign", "update", "update", "update", "exportArmor", "exportObject", "exportObject",
+		"delete", "delete", "delete", "get", "unsafeDelete"}
 	if len(m.model) == 0 {
 		ops = []string{"create", "importRaw", "importArmor"}
 	}
@@ -426,6 +427,13 @@ func (m *kbMachine) step() {
 			if newPass != e.pass {
 				e.old = append(e.old, e.pass)
 				c.Label("passphrase-changed")
+				c.Label("stale-passphrase")
+				c.NonTrivial()
+				// the key must have been re-encrypted: the replaced passphrase no longer opens it
+				if _, err := m.kb.ExportPrivateKeyObject(addrOf(a), e.pass); err == nil {
+					c.Violation("C40/keybase/stale-passphrase-still-works", "after Update(%q -> %q) the key still opens with the replaced passphrase", e.pass, newPass)
+				}
+				c.AddExtra("armor_ops", 1)
 			}
 			e.pass = newPass
 		} else if err == nil {
@@ -543,7 +551,7 @@ func c40Keybase(rt *rapid.T, c *harness.Case) {
 		c.Opf("keybase in memory")
 	}
 	c.Label("keybase")
-	n := rapid.IntRange(3, 9).Draw(rt, "steps")
+	n := rapid.IntRange(3, 8).Draw(rt, "steps")
 	m.checkListing("initial")
 	for i := 0; i < n; i++ {
 		m.step()
@@ -579,7 +587,7 @@ func TestC40(t *testing.T) {
 	}
 	harness.Check(t, "C40",
 		"each case is (1 in 3) an armor case: generated ed25519/secp256k1 key, passphrase (empty, ASCII, unicode, long) and hint through EncryptArmorPrivKey/UnarmorDecryptPrivKey with the right passphrase, a different "+
-			"passphrase (near misses included) and a one-character corruption of salt, ciphertext or kdf; or (2 in 3) a keybase history of 3-9 operations (create, import raw, import armored with right/wrong decrypt "+
+			"passphrase (near misses included) and a one-character corruption of salt, ciphertext or kdf; or (2 in 3) a keybase history of 3-8 operations (create, import raw, import armored with right/wrong decrypt "+
 			"passphrase, get, sign, update, export armored, export object, delete, unsafe delete; on existing keys with the right passphrase 2 in 3 and a wrong or replaced one 1 in 3; on absent/deleted addresses 1 in 6) on "+
 			"NewInMemory() (3 in 4) or the on-disk lazy keybase, checked after every step against a map address -> (public key, passphrase): List/Get agree with the map, deleted keys are gone. "+
 			"non-trivial = the case presents a wrong or replaced passphrase to an existing key/armor. Bounded by scrypt cost (~0.1 s per derivation; see armor_ops)",
